@@ -270,7 +270,47 @@ def stressCases : G (List String) := do
     out := s!"P 0 d:{hexOf p};n" :: out
   pure out.reverse
 
+/-- options announced by a rejected picture must not reach the next one: a baseline I picture, then (fresh reader) a PLUSPTYPE
+picture with UFEP = 001 that switches on modified quantization or unrestricted motion vectors and fails after its header
+(MQ: unimplemented at the first coded macroblock; UMV: cut short inside the macroblock data), then (fresh reader) a picture
+that carries no OPPTYPE of its own: a baseline predicted picture, or a PLUSPTYPE one with UFEP = 000 -/
+def leakCases (count : Nat) : G (List String) := do
+  let mut out : List String := []
+  for k in [0:count] do
+    let tr ← below 256
+    let i ← genPic { flavour := 2 } 0 (128, 96) tr true
+    let b ← genPic { flavour := 3 } (k % 2) (128, 96) (tr + 1) true
+    let b : PicD := match b.hdr with
+      | .plus h => { b with hdr := .plus { h with ufep := true, mq := k % 4 < 2, umv := k % 4 ≥ 2, extra := [] } }
+      | _ => b
+    let bytes := encodePic b
+    let cut ← range 18 (max 19 (bytes.length - 1))
+    let bad := if k % 4 < 2 ∧ k % 8 < 4 then bytes else bytes.take cut
+    let plus3 ← coin 1 3
+    let t ← genPic { flavour := if plus3 then 3 else 2 } 1 (128, 96) (tr + 2) true
+    let t : PicD := match t.hdr with
+      | .plus h => { t with hdr := .plus { h with ufep := false } }
+      | _ => t
+    out := s!"P 0 d:{hexOf i};r:{hex bad.toArray};r:{hexOf t}" :: out
+  pure out.reverse
+
+/-- whole intra pictures of more than 5000 bytes (CIF / 320x240), one per line: the material for deliveries split, and for
+errors planted, beyond the first 4 KiB of a picture -/
+def bigIntraCases (count : Nat) : G (List String) := do
+  let mut out : List String := []
+  for _ in [0:count] do
+    let fl ← pick [1, 1, 0, 3]
+    let dims ← pick [(352, 288), (320, 240)]
+    let tr ← below 256
+    let mut p ← genPic { flavour := fl } 0 dims tr true
+    for _ in [0:4] do
+      if (encodePic p).length ≤ 5000 then p ← genPic { flavour := fl } 0 dims tr true
+    out := s!"P {optsOf { flavour := fl } false} d:{hexOf p}" :: out
+  pure out.reverse
+
 def runGen (kind : String) (seed count : Nat) : List String :=
+  if kind == "leak" then ((leakCases count).run (seed * 2654435761 + 55)).1 else
+  if kind == "bigintra" then ((bigIntraCases count).run (seed * 2654435761 + 56)).1 else
   if kind == "stress" then (stressCases.run (seed * 2654435761 + 7)).1 else
   if kind == "esclevels" then escLevelCases else
   if kind == "bigconcat" then ((bigConcatCases count).run (seed * 2654435761 + 77)).1 else
